@@ -2,10 +2,13 @@
    Property theorems only; each is closed by [exact <lemma>] and followed by Print Assumptions.
    Model: Config/Toml.v (values), Config/Merge.v (merge.rs), Config/Extends.v (extends.rs and the
    value-level half of loader.rs: [load_top fs path no_extends]). The file system, the preset
-   table and the remote fetch are ARBITRARY data [fs : fsys]; values are arbitrary [tv]. *)
+   table and the remote fetch are ARBITRARY data [fs : fsys]; values are arbitrary [tv].
+   Since fix D67 the members of a chain are the files / remote documents with their aliased keys
+   renamed ([norm_alias], [norm_fs fs]): the chain theorems speak of [chain_of (norm_fs fs)
+   (norm_alias v)]; a file loaded alone is not touched. *)
 From Coq Require Import NArith ZArith List Bool.
 From SG Require Import Config.Toml Config.Merge Config.Extends Config.Proofs_C16a Config.Proofs_C16b
-     Config.Proofs_C16c Config.Examples_C16 Gen.Gen_Config.
+     Config.Proofs_C16c Config.Proofs_C16d Config.Examples_C16 Gen.Gen_Config.
 Import ListNotations.
 Open Scope N_scope.
 
@@ -13,7 +16,7 @@ Open Scope N_scope.
    MAX + 1 - depth: a level recurses only after the test depth + 1 <= MAX; presets do not recurse.
    [visited] plays no part. *)
 Theorem C16_terminates : forall fs path no_extends, load_top fs path no_extends <> OutOfFuel.
-Proof. exact load_top_terminates. Qed.
+Proof. exact t_terminates. Qed.
 Print Assumptions C16_terminates.
 
 Theorem C16_terminates_measure : forall fs fuel v bp visited depth,
@@ -30,8 +33,8 @@ Print Assumptions C16_terminates_measure.
 Theorem C16_is_left_fold : forall fs, presets_plain fs -> forall path v r pu,
   fs_read fs path = RdOk v -> has_key K_extends v = true ->
   load_top fs path false = Ok (r, pu) ->
-  exists ch, chain_of fs v (Some path) ch /\ r = strip (lf ch) /\ Forall member_ok ch.
-Proof. exact top_left_fold. Qed.
+  exists ch, chain_of (norm_fs fs) (norm_alias v) (Some path) ch /\ r = strip (lf ch) /\ Forall member_ok ch.
+Proof. exact t_left_fold. Qed.
 Print Assumptions C16_is_left_fold.
 
 (* ... and in the form  r = finalize (fold_left dmerge chain):  when every member is a document (a
@@ -41,9 +44,9 @@ Print Assumptions C16_is_left_fold.
 Theorem C16_is_left_fold_finalized : forall fs, presets_plain fs -> forall path v r pu ch,
   fs_read fs path = RdOk v -> has_key K_extends v = true ->
   load_top fs path false = Ok (r, pu) ->
-  chain_of fs v (Some path) ch -> Forall (fun m => is_doc (mval m) = true) ch ->
+  chain_of (norm_fs fs) (norm_alias v) (Some path) ch -> Forall (fun m => is_doc (mval m) = true) ch ->
   r = strip (rm_ext (fold_chain ch)).
-Proof. exact top_left_fold_plain. Qed.
+Proof. exact t_left_fold_plain. Qed.
 Print Assumptions C16_is_left_fold_finalized.
 
 Theorem C16_drop_keys_once : forall ms a, is_doc a = true -> Forall (fun m => is_doc m = true) ms ->
@@ -115,7 +118,7 @@ Print Assumptions C16_merge_valid.
 (* ---- no marker reaches the effective configuration *)
 Theorem C16_no_marker_survives : forall fs path no_extends r pu,
   load_top fs path no_extends = Ok (r, pu) -> has_any r = false.
-Proof. exact no_marker_survives. Qed.
+Proof. exact t_no_marker_survives. Qed.
 Print Assumptions C16_no_marker_survives.
 
 (* ---- a member with a marker anywhere but first makes resolution fail (full statement since
@@ -123,15 +126,15 @@ Print Assumptions C16_no_marker_survives.
    dropped before the test. *)
 Theorem C16_misplaced_marker_rejected : forall fs, presets_plain fs -> forall path v ch m,
   fs_read fs path = RdOk v -> has_key K_extends v = true ->
-  chain_of fs v (Some path) ch -> In (Mem m) ch -> valid (rm_ext m) = false ->
+  chain_of (norm_fs fs) (norm_alias v) (Some path) ch -> In (Mem m) ch -> valid (rm_ext m) = false ->
   forall rp, load_top fs path false <> Ok rp.
-Proof. exact top_misplaced_rejected. Qed.
+Proof. exact t_misplaced_rejected. Qed.
 Print Assumptions C16_misplaced_marker_rejected.
 
 Theorem C16_misplaced_marker_rejected_single_file : forall fs path v no_extends,
   fs_read fs path = RdOk v -> (negb no_extends && has_key K_extends v) = false -> valid v = false ->
   forall rp, load_top fs path no_extends <> Ok rp.
-Proof. exact single_misplaced_rejected. Qed.
+Proof. exact t_single_misplaced_rejected. Qed.
 Print Assumptions C16_misplaced_marker_rejected_single_file.
 
 (* D25 as it was: the merge consumes the first marker, so validating the MERGED value (all the code
@@ -149,6 +152,72 @@ Example C16_d25_rejected_now : load_top world_d25 fA false = Err (EReset k_exclu
 Proof. vm_compute. reflexivity. Qed.
 Print Assumptions C16_d25_rejected_now.
 
+(* ---- fixes D66 / D68: an inheritance key that is present but not a string (extends = [..],
+   extends_sha256 = 12345) in ANY file / remote member of the chain makes resolution fail; before
+   the fixes the key was dropped silently (the base ignored, the remote content unverified) *)
+Theorem C16_malformed_inheritance_key_rejected : forall fs, presets_plain fs -> forall path v ch m,
+  fs_read fs path = RdOk v -> has_key K_extends v = true ->
+  chain_of (norm_fs fs) (norm_alias v) (Some path) ch -> In (Mem m) ch -> bad_key m <> None ->
+  forall rp, load_top fs path false <> Ok rp.
+Proof. exact t_bad_key_rejected. Qed.
+Print Assumptions C16_malformed_inheritance_key_rejected.
+
+(* ... in the leaf the error names the key (extends before the pin) *)
+Theorem C16_malformed_key_in_leaf_names_key : forall fs path v key k,
+  fs_read fs path = RdOk v -> fs_canon fs path = Some key -> has_key K_extends v = true ->
+  bad_key v = Some k -> load_top fs path false = Err (EBadKey k).
+Proof. exact t_bad_leaf. Qed.
+Print Assumptions C16_malformed_key_in_leaf_names_key.
+
+Theorem C16_every_ok_member_has_string_keys : forall fs, presets_plain fs -> forall fuel v bp vis d r pu,
+  resolve_val fs fuel v bp vis d = Ok (r, pu) ->
+  exists ch, chain_of fs v bp ch /\ Forall member_ok ch.
+Proof. exact resolve_members_ok. Qed.
+Print Assumptions C16_every_ok_member_has_string_keys.
+
+Example C16_bad_extends_rejected :
+  load_top world_bad_extends fA false = Err (EBadKey K_extends) /\
+  load_top world_bad_pin fA false = Err (EBadKey K_sha) /\
+  load_top world_bad_extends_in_base fA false = Err (EBadKey K_extends).
+Proof. vm_compute. auto. Qed.
+Print Assumptions C16_bad_extends_rejected.
+
+(* ---- fix D67: aliased keys. Inside the structure table of a member the alias is renamed to the
+   canonical key unless both spellings are present; nothing else changes; the inheritance keys are
+   not touched; renaming twice is renaming once *)
+Theorem C16_alias_renamed_to_canonical : forall s,
+  tab_get K_deny_files (norm_tab s) =
+  match tab_get K_deny_files s with Some x => Some x | None => tab_get K_deny_alias s end.
+Proof. exact norm_tab_canonical. Qed.
+Print Assumptions C16_alias_renamed_to_canonical.
+
+Theorem C16_alias_key_gone : forall s, tab_get K_deny_files s = None -> tab_get K_deny_alias (norm_tab s) = None.
+Proof. exact norm_tab_alias_gone. Qed.
+Print Assumptions C16_alias_key_gone.
+
+Theorem C16_alias_other_keys_kept : forall s k, str_eqb k K_deny_files = false -> str_eqb k K_deny_alias = false ->
+  tab_get k (norm_tab s) = tab_get k s.
+Proof. exact norm_tab_other. Qed.
+Print Assumptions C16_alias_other_keys_kept.
+
+Theorem C16_alias_idempotent : forall s, norm_tab (norm_tab s) = norm_tab s.
+Proof. exact norm_tab_idem. Qed.
+Print Assumptions C16_alias_idempotent.
+
+Theorem C16_alias_keeps_other_tables : forall k v, str_eqb k K_structure = false ->
+  tv_get k (norm_alias v) = tv_get k v.
+Proof. exact tv_get_norm_other. Qed.
+Print Assumptions C16_alias_keeps_other_tables.
+
+(* the witness of D67: base [structure] deny_file_patterns = [*.bak], leaf [structure] deny_files =
+   [*.tmp]: the chain folds to deny_files = [*.bak, *.tmp] (before the fix the merged table carried
+   both keys and the typed parse failed with a duplicate field) *)
+Example C16_alias_chain_folds :
+  load_top world_alias fA false
+  = Ok (TTab [(K_structure, TTab [(K_deny_files, TArr [TStr s_bak; TStr s_tmp])])], None).
+Proof. vm_compute. reflexivity. Qed.
+Print Assumptions C16_alias_chain_folds.
+
 (* ---- a cycle or a chain deeper than MAX is an error that names the chain: the canonical keys
    from the leaf on, ending (cycle) with the key met twice; (depth) exactly MAX + 1 members *)
 Theorem C16_cycle_or_depth_names_chain : forall fs path v key,
@@ -157,7 +226,7 @@ Theorem C16_cycle_or_depth_names_chain : forall fs path v key,
      exists suf k, ch = key :: suf ++ [k] /\ In k (key :: suf)) /\
   (forall dd ch, load_top fs path false = Err (ETooDeep dd ch) ->
      dd = MAX + 1 /\ exists suf, ch = key :: suf /\ N.of_nat (length ch) = MAX + 1).
-Proof. exact top_names_chain. Qed.
+Proof. exact t_names_chain. Qed.
 Print Assumptions C16_cycle_or_depth_names_chain.
 
 (* ---- --no-extends uses the leaf alone: the answer is this expression of the leaf's own value *)
@@ -168,12 +237,12 @@ Theorem C16_no_extends_is_leaf : forall fs path,
   | RdSyntax => Err (ESyntax path)
   | RdOk v => if has_any v then bind (finalize v) (fun r => Ok (r, None)) else Ok (v, None)
   end.
-Proof. exact no_extends_is_leaf. Qed.
+Proof. exact t_no_extends_is_leaf. Qed.
 Print Assumptions C16_no_extends_is_leaf.
 
 Theorem C16_no_extends_ignores_other_files : forall fs fs' path,
   fs_read fs path = fs_read fs' path -> load_top fs path true = load_top fs' path true.
-Proof. exact no_extends_local. Qed.
+Proof. exact t_no_extends_local. Qed.
 Print Assumptions C16_no_extends_ignores_other_files.
 
 (* ---- a single file holding the effective value resolves to that value (any file system, with
@@ -181,7 +250,7 @@ Print Assumptions C16_no_extends_ignores_other_files.
 Theorem C16_flatten_equivalent : forall fs path r pu,
   load_top fs path false = Ok (r, pu) ->
   forall fs' p' no_extends, fs_read fs' p' = RdOk r -> load_top fs' p' no_extends = Ok (r, None).
-Proof. exact flatten_equivalent. Qed.
+Proof. exact t_flatten_equivalent. Qed.
 Print Assumptions C16_flatten_equivalent.
 
 (* ---- tie to the crate's data (Gen_Config.v is regenerated from the built crate on every run) *)
